@@ -881,3 +881,43 @@ Theorem dimension_ok :
 Proof.
   split; [intros; split; [apply lhs_length|apply lhs_dimension]|]. split; [exact halton_dimension|]. split; [exact grid_dimension|exact random_dimension].
 Qed.
+
+(* ------------------------------------------------------------------------------------------ *)
+(* Halton: the closed form of selected rows (what the correspondence evaluates for large N)     *)
+(* ------------------------------------------------------------------------------------------ *)
+Lemma halton_row_nth N bs base i : (1 <= i <= N)%nat ->
+  nth (i - 1) (scale_rows bs (halton_unit N base)) [] = halton_row_at bs base i.
+Proof.
+  intros L. rewrite halton_unit_rows. unfold scale_rows. rewrite map_map.
+  rewrite (nth_map_seq _ 1 N (i - 1) []) by lia. replace (1 + (i - 1))%nat with i by lia. reflexivity.
+Qed.
+
+Lemma point_in_range_spec N i : point_in_range N i = true <-> (1 <= i <= N)%nat.
+Proof. unfold point_in_range. rewrite andb_true_iff, !Nat.leb_le. reflexivity. Qed.
+
+(* the rows `build_halton_at N bs idxs` returns are exactly rows idxs[0]-1, idxs[1]-1, ... of `build_halton N bs`
+   (the object C12_halton_radical_inverse speaks about), and it returns iff build_halton does and every
+   listed point number is in 1..N *)
+Theorem halton_selected_rows : forall N bs idxs,
+  (forall rows, build_halton N bs = Some rows -> Forall (fun i => (1 <= i <= N)%nat) idxs ->
+     build_halton_at N bs idxs = Some (map (fun i => nth (i - 1) rows []) idxs)) /\
+  (forall sel, build_halton_at N bs idxs = Some sel ->
+     exists rows, build_halton N bs = Some rows /\ Forall (fun i => (1 <= i <= N)%nat) idxs /\
+                  sel = map (fun i => nth (i - 1) rows []) idxs).
+Proof.
+  intros N bs idxs. unfold build_halton, build_halton_at.
+  destruct (halton_base (length bs)) as [base|]; [|split; [intros rows H; discriminate|intros sel H; discriminate]].
+  assert (E : Forall (fun i => (1 <= i <= N)%nat) idxs ->
+              map (halton_row_at bs base) idxs = map (fun i => nth (i - 1) (scale_rows bs (halton_unit N base)) []) idxs).
+  { intros F. apply map_ext_in. intros i I. rewrite Forall_forall in F. symmetry. apply halton_row_nth. exact (F i I). }
+  split.
+  - intros rows H F. inversion H; subst rows; clear H.
+    assert (B : forallb (point_in_range N) idxs = true).
+    { apply forallb_forall. intros i I. apply point_in_range_spec. rewrite Forall_forall in F. exact (F i I). }
+    rewrite B, (E F). reflexivity.
+  - intros sel H. destruct (forallb (point_in_range N) idxs) eqn:B; [|discriminate].
+    assert (F : Forall (fun i => (1 <= i <= N)%nat) idxs).
+    { apply Forall_forall. intros i I. apply point_in_range_spec. rewrite forallb_forall in B. exact (B i I). }
+    exists (scale_rows bs (halton_unit N base)). split; [reflexivity|]. split; [exact F|].
+    inversion H; subst sel. exact (E F).
+Qed.
